@@ -135,6 +135,14 @@ def build(scn):
             inner_genuine = request_xml(rtype, 'req1', dest, ii, '')          # the signed content, signature-less
             doc = request_xml(rtype, 'evil1', dest, ii, genuine_sig, marker='forged',
                               inner='<samlp:Extensions>%s</samlp:Extensions>' % inner_genuine)
+        elif scn['sig'] == 'wrapped_ownref':
+            import re
+            genuine_sig = re.search(r'<ds:Signature .*?</ds:Signature>', doc, re.S).group(0)
+            own_sig = genuine_sig.replace('URI="#req1"', 'URI="#evil1"', 1)
+            if own_sig == genuine_sig:
+                raise fw.Machinery('reference of the genuine signature not found')
+            doc = request_xml(rtype, 'evil1', dest, ii, '', marker='forged',
+                              inner='<samlp:Extensions>%s</samlp:Extensions>%s' % (doc, own_sig))
     if mut == 'wrong_root':
         other = 'logout_idp' if rtype != 'logout_idp' and rtype != 'logout_sp' else 'authn'
         doc = request_xml(other, 'req1', dest, ii, '')
